@@ -1,0 +1,28 @@
+//go:build verif
+
+// Copyright 2026 The Scriggo Authors. All rights reserved.
+// Use of this source code is governed by a BSD-style
+// license that can be found in the LICENSE file.
+
+// Package c20 is a verification bridge (build tag "verif") that exposes the
+// unexported operand encoders/decoders and limit constants of
+// internal/compiler and internal/runtime to the external correspondence
+// harness of property C20. It adds no behaviour.
+package c20
+
+import "github.com/open2b/scriggo/internal/compiler"
+
+// Limits returns the implementation limits of the compiler by constant name.
+func Limits() map[string]int64 { return compiler.VerifC20Limits() }
+
+// Call calls the compiler's encode/decode helper with the given name. A name
+// with the prefix "VM." calls the decoder of the virtual machine instead.
+func Call(name string, args []int64) ([]int64, bool) {
+	if len(name) > 3 && name[:3] == "VM." {
+		return compiler.VerifC20VMCall(name[3:], args)
+	}
+	if name == "decodeIndex8" {
+		return compiler.VerifC20VMCall(name, args)
+	}
+	return compiler.VerifC20Call(name, args)
+}
